@@ -240,6 +240,7 @@ pub fn main(args: &[String]) {
         Some("autotraits") => crate::traits::table(),
         Some("serde") => crate::serde_check::run(&args[1]),
         Some("serde_hist") => crate::serde_check::run_histories(&args[1]),
+        Some("cache_views") => crate::cache_views::run(&args[1]),
         _ => {
             eprintln!("usage: asv seq laws FILE | autotraits | serde FILE");
             std::process::exit(2);
